@@ -78,7 +78,7 @@ func (m *Orthographic) Reverse(xy geom.XY) geom.XY {
 	var (
 		c = asin(ρ / R)
 		φ = asin(cos(c)*sinφ0 + y*sin(c)*cosφ0/ρ)
-		λ = λ0 + atan(x*sin(c)/(ρ*cos(c)*cosφ0-y*sin(c)*sinφ0))
+		λ = λ0 + atan2(x*sin(c), ρ*cos(c)*cosφ0-y*sin(c)*sinφ0)
 	)
 	return rtodxy(λ, φ)
 }
